@@ -116,7 +116,7 @@ def stepIdx (st : DState) (cmd : String) (args : List String) : DState × String
   | "idx.sim", [i] =>
       match parseIdx? i with
       | some idx =>
-          let sim := simStep st.box st.ist.active st.sim idx
+          let sim := simStepGen st.box st.ist.active st.sim idx
           ({ st with sim := sim }, showIState sim)
       | none => (st, "bad-op")
   | _, _ => (st, "bad-op")
